@@ -65,7 +65,7 @@ Fixpoint parse_value (fuel : nat) (stops : list str) (ts : list tok) : pres (lis
         else if is_ty ($"css_color") t then
           match color_fmt (tval t) with Some c => cont [VT c] r | None => PNoModel $"colour" end
         else if is_ty ($"less_variable") t then
-          (match tval t with "@" :: "{" :: _ => PNoModel $"bare interpolation in a value" | _ => cont [VVar (tval t)] r end)
+          (if starts_with ($"@{") (tval t) then PNoModel $"bare interpolation in a value" else cont [VVar (tval t)] r)
         else if is_ty ($"less_arguments") t then cont [VVar ($"@arguments")] r
         else if is_ty ($"t_isopen") t then
           pbind (istring_parts r) (fun '(ps, rest) => cont (VT (tval t) :: ps) rest)
@@ -165,6 +165,118 @@ Definition media_has_type (ts : list tok) : bool :=
   match skip_ws ts with t :: _ => is_ty ($"css_media_type") t || is_ty ($"t_not") t || is_ty ($"t_only") t | [] => false end.
 
 (* ---- statements ---- *)
+(* the statement just parsed, then the rest of the body *)
+Definition p_after (rec : list tok -> pres (list node * list tok)) (n : node) (rest : list tok) : pres (list node * list tok) :=
+  pbind (rec rest) (fun '(ns, rest') => POk (n :: ns, rest')).
+(* a block: its body up to the closing brace, then the rest *)
+Definition p_block (rec : list tok -> pres (list node * list tok)) (mk : list node -> node) (rest : list tok) : pres (list node * list tok) :=
+  pbind (rec rest) (fun '(body, rest1) =>
+    match rest1 with
+    | c :: rest2 => if is_ty ($"t_bclose") c then p_after rec (mk body) rest2 else PSyntax $"block not closed"
+    | [] => PSyntax $"block not closed"
+    end).
+
+Definition prec := list tok -> pres (list node * list tok).
+
+Definition p_decl (fuel : nat) (rec : prec) (t : tok) (r : list tok) : pres (list node * list tok) :=
+  match skip_ws r with
+  | c :: r1 =>
+      if is_ty ($"t_colon") c then
+        pbind (parse_value fuel [$"t_semicolon"] r1) (fun '(v, imp, _, rest) => p_after rec (NProp (tval t) v imp) rest)
+      else PSyntax $"declaration without colon"
+  | [] => PSyntax $"declaration without colon"
+  end.
+
+Definition p_vardecl (fuel : nat) (rec : prec) (t : tok) (r : list tok) : pres (list node * list tok) :=
+  match skip_ws r with
+  | c :: r1 =>
+      if is_ty ($"t_colon") c then
+        pbind (parse_value fuel [$"t_semicolon"] r1) (fun '(v, imp, _, rest) =>
+          if imp then PNoModel $"!important variable" else p_after rec (NVar (tval t) v) rest)
+      else PNoModel $"variable at statement start"
+  | [] => PSyntax $"variable at statement start"
+  end.
+
+Definition p_media (rec : prec) (t : tok) (r : list tok) : pres (list node * list tok) :=
+  pbind (take_header r) (fun '(h, rest) =>
+    pbind (media_tokens (media_has_type h) false false h) (fun q => p_block rec (NBlock (tval t :: q)) rest)).
+
+Definition p_atblock (rec : prec) (t : tok) (r : list tok) : pres (list node * list tok) :=
+  pbind (take_header r) (fun '(h, rest) =>
+    if forallb (ty_in [$"t_ws"; $"css_ident"]) h then p_block rec (NBlock (tval t :: map tval h)) rest else PNoModel $"at-rule header").
+
+Definition p_charset (rec : prec) (t : tok) (r : list tok) : pres (list node * list tok) :=
+  match r with
+  | w :: s :: e :: rest =>
+      if is_ty ($"t_ws") w && is_ty ($"css_string") s && is_ty ($"t_semicolon") e
+      then p_after rec (NStmt [tval t; tval w; tval s; tval e]) rest else PNoModel $"@charset form"
+  | _ => PNoModel $"@charset form"
+  end.
+
+Fixpoint upto_semicolon (l : list tok) : pres (list tok * list tok) :=
+  match l with
+  | [] => PSyntax $"statement not terminated"
+  | x :: l' => if is_ty ($"t_semicolon") x then POk ([], l') else pbind (upto_semicolon l') (fun '(h, rest') => POk (x :: h, rest'))
+  end.
+(* an import of something that is not a LESS file stays a statement; a blank is put in front of a media list *)
+Definition p_import_finish (rec : prec) (t : tok) (target path : str) (rest : list tok) : pres (list node * list tok) :=
+  if is_less_import (strip (fun c => Ascii.eqb c """" || Ascii.eqb c "'") path) then PNoModel $"LESS import (needs the file system: Model/Import.v)"
+  else
+    pbind (upto_semicolon rest) (fun '(m, rest') =>
+      match m with
+      | [] => p_after rec (NStmt [tval t; [" "]; target; [";"]]) rest'
+      | _ => pbind (media_tokens true false false m) (fun q => p_after rec (NStmt ([tval t; [" "]; target; [" "]] ++ q ++ [[";"]])) rest')
+      end).
+Definition p_import (rec : prec) (t : tok) (r : list tok) : pres (list node * list tok) :=
+  match r with
+  | w :: s :: rest =>
+      if is_ty ($"t_ws") w && is_ty ($"css_string") s then p_import_finish rec t (tval s) (tval s) rest
+      else if is_ty ($"t_ws") w && is_ty ($"css_ident") s && str_eqb (tval s) ($"url") then
+        match rest with
+        | p :: u :: c :: rest' =>
+            if is_ty ($"t_popen") p && is_ty ($"css_string") u && is_ty ($"t_pclose") c
+            then p_import_finish rec t (tval s ++ tval p ++ tval u ++ tval c) (tval u) rest' else PNoModel $"@import form"
+        | _ => PNoModel $"@import form"
+        end
+      else PNoModel $"@import form"
+  | _ => PNoModel $"@import form"
+  end.
+
+(* a rule; inside @keyframes its selector is a KeyframeSelector *)
+Definition rule_node (h : list tok) : list node -> node :=
+  match h with
+  | [k] => if is_ty ($"css_keyframe_selector") k || is_ty ($"css_number") k then NFrame (tval k) else NBlock (map tval h)
+  | [k; w] => if (is_ty ($"css_keyframe_selector") k || is_ty ($"css_number") k) && is_ty ($"t_ws") w then NFrame (tval k) else NBlock (map tval h)
+  | _ => NBlock (map tval h)
+  end.
+Definition p_rule (rec : prec) (ts : list tok) : pres (list node * list tok) :=
+  pbind (take_header ts) (fun '(h, rest) => if forallb selector_ok h then p_block rec (rule_node h) rest else PNoModel $"selector token").
+
+Definition p_call_tail (fuel : nat) (rec : prec) (t : tok) (r1 : list tok) : pres (list node * list tok) :=
+  pbind (parse_args fuel (skip_ws r1)) (fun '(args, rest') =>
+    match rest' with
+    | s :: rest2 => if is_ty ($"t_semicolon") s then p_after rec (NCall (tval t) args) rest2 else PNoModel $"after a call"
+    | [] => PSyntax $"call not terminated"
+    end).
+(* a mixin call or definition: a single class directly followed by '(' (definition or call: decided by what follows the
+   closing parenthesis) or, after an optional blank, by ';' ; otherwise a rule *)
+Definition p_class (fuel : nat) (rec : prec) (t : tok) (r : list tok) : pres (list node * list tok) :=
+  match skip_ws r with
+  | p :: r1 =>
+      if is_ty ($"t_semicolon") p then p_after rec (NCall (tval t) []) r1
+      else if is_ty ($"t_popen") p && (match r with q :: _ => is_ty ($"t_popen") q | [] => false end) then
+        match parse_params fuel (skip_ws r1) with
+        | POk (ps, rest) =>
+            match skip_ws rest with
+            | b :: rest1 => if is_ty ($"t_bopen") b then p_block rec (NMixin (tval t) ps) rest1 else p_call_tail fuel rec t r1
+            | [] => PSyntax $"after a parameter list"
+            end
+        | _ => p_call_tail fuel rec t r1
+        end
+      else p_rule rec (t :: r)
+  | [] => p_rule rec (t :: r)
+  end.
+
 Fixpoint parse_body (fuel : nat) (ts : list tok) {struct fuel} : pres (list node * list tok) :=
   match fuel with
   | O => PNoModel $"fuel"
@@ -173,114 +285,15 @@ Fixpoint parse_body (fuel : nat) (ts : list tok) {struct fuel} : pres (list node
     | [] => POk ([], [])                                      (* end of input (top level) *)
     | t :: r =>
         if is_ty ($"t_bclose") t then POk ([], ts)
-        else
-        let after (n : node) (rest : list tok) := pbind (parse_body f rest) (fun '(ns, rest') => POk (n :: ns, rest')) in
-        let block (mk : list node -> node) (rest : list tok) :=
-          pbind (parse_body f rest) (fun '(body, rest1) =>
-            match rest1 with
-            | c :: rest2 => if is_ty ($"t_bclose") c then after (mk body) rest2 else PSyntax $"block not closed"
-            | [] => PSyntax $"block not closed"
-            end) in
-        if ty_in [$"css_property"; $"css_vendor_property"; $"css_user_property"] t then
-          match skip_ws r with
-          | c :: r1 =>
-              if is_ty ($"t_colon") c then
-                pbind (parse_value f [$"t_semicolon"] r1) (fun '(v, imp, _, rest) => after (NProp (tval t) v imp) rest)
-              else PSyntax $"declaration without colon"
-          | [] => PSyntax $"declaration without colon"
-          end
-        else if is_ty ($"less_variable") t then
-          match skip_ws r with
-          | c :: r1 =>
-              if is_ty ($"t_colon") c then
-                pbind (parse_value f [$"t_semicolon"] r1) (fun '(v, imp, _, rest) =>
-                  if imp then PNoModel $"!important variable" else after (NVar (tval t) v) rest)
-              else PNoModel $"variable at statement start"
-          | [] => PSyntax $"variable at statement start"
-          end
-        else if is_ty ($"css_media") t then
-          pbind (take_header r) (fun '(h, rest) =>
-            pbind (media_tokens (media_has_type h) false false h) (fun q => block (NBlock (tval t :: q)) rest))
-        else if is_ty ($"css_keyframes") t || is_ty ($"css_font_face") t then
-          pbind (take_header r) (fun '(h, rest) =>
-            if forallb (ty_in [$"t_ws"; $"css_ident"]) h then block (NBlock (tval t :: map tval h)) rest else PNoModel $"at-rule header")
-        else if is_ty ($"css_charset") t then
-          match r with
-          | w :: s :: e :: rest =>
-              if is_ty ($"t_ws") w && is_ty ($"css_string") s && is_ty ($"t_semicolon") e
-              then after (NStmt [tval t; tval w; tval s; tval e]) rest else PNoModel $"@charset form"
-          | _ => PNoModel $"@charset form"
-          end
-        else if is_ty ($"css_import") t then
-          (* an import of something that is not a LESS file stays a statement; a blank is put in front of a media list *)
-          let finish (target : str) (path : str) (rest : list tok) :=
-            if is_less_import (strip (fun c => Ascii.eqb c """" || Ascii.eqb c "'") path) then PNoModel $"LESS import (needs the file system: Model/Import.v)"
-            else
-              let fix upto (l : list tok) : pres (list tok * list tok) :=
-                match l with
-                | [] => PSyntax $"statement not terminated"
-                | x :: l' => if is_ty ($"t_semicolon") x then POk ([], l') else pbind (upto l') (fun '(h, rest') => POk (x :: h, rest'))
-                end in
-              pbind (upto rest) (fun '(m, rest') =>
-                match m with
-                | [] => after (NStmt [tval t; [" "]; target; [";"]]) rest'
-                | _ => pbind (media_tokens true false false m) (fun q => after (NStmt ([tval t; [" "]; target; [" "]] ++ q ++ [[";"]])) rest')
-                end) in
-          match r with
-          | w :: s :: rest =>
-              if is_ty ($"t_ws") w && is_ty ($"css_string") s then finish (tval s) (tval s) rest
-              else if is_ty ($"t_ws") w && str_eqb (tval s) ($"url") then
-                match rest with
-                | p :: u :: c :: rest' =>
-                    if is_ty ($"t_popen") p && is_ty ($"css_string") u && is_ty ($"t_pclose") c
-                    then finish (tval s ++ tval p ++ tval u ++ tval c) (tval u) rest' else PNoModel $"@import form"
-                | _ => PNoModel $"@import form"
-                end
-              else PNoModel $"@import form"
-          | _ => PNoModel $"@import form"
-          end
+        else if ty_in [$"css_property"; $"css_vendor_property"; $"css_user_property"] t then p_decl f (parse_body f) t r
+        else if is_ty ($"less_variable") t then p_vardecl f (parse_body f) t r
+        else if is_ty ($"css_media") t then p_media (parse_body f) t r
+        else if is_ty ($"css_keyframes") t || is_ty ($"css_font_face") t then p_atblock (parse_body f) t r
+        else if is_ty ($"css_charset") t then p_charset (parse_body f) t r
+        else if is_ty ($"css_import") t then p_import (parse_body f) t r
         else if ty_in [$"css_namespace"; $"css_page"; $"css_viewport"] t then PNoModel $"statement"
-        else
-          (* a mixin call or definition: a single class followed by '(' or by ';' *)
-          match (if is_ty ($"css_class") t then Some (skip_ws r) else None) with
-          | Some (p :: r1) =>
-              if is_ty ($"t_semicolon") p then after (NCall (tval t) []) r1
-              else if is_ty ($"t_popen") p && (match r with q :: _ => is_ty ($"t_popen") q | [] => false end) then
-                (* definition or call? decided by what follows the closing parenthesis *)
-                match parse_params f (skip_ws r1) with
-                | POk (ps, rest) =>
-                    match skip_ws rest with
-                    | b :: rest1 => if is_ty ($"t_bopen") b then block (NMixin (tval t) ps) rest1
-                                    else pbind (parse_args f (skip_ws r1)) (fun '(args, rest') =>
-                                           match rest' with
-                                           | s :: rest2 => if is_ty ($"t_semicolon") s then after (NCall (tval t) args) rest2 else PNoModel $"after a call"
-                                           | [] => PSyntax $"call not terminated"
-                                           end)
-                    | [] => PSyntax $"after a parameter list"
-                    end
-                | _ =>
-                    pbind (parse_args f (skip_ws r1)) (fun '(args, rest') =>
-                      match rest' with
-                      | s :: rest2 => if is_ty ($"t_semicolon") s then after (NCall (tval t) args) rest2
-                                      else PNoModel $"after a call"
-                      | [] => PSyntax $"call not terminated"
-                      end)
-                end
-              else
-                pbind (take_header ts) (fun '(h, rest) =>
-                  if forallb selector_ok h then block (NBlock (map tval h)) rest else PNoModel $"selector token")
-          | _ =>
-              (* a rule; inside @keyframes its selector is a KeyframeSelector *)
-              pbind (take_header ts) (fun '(h, rest) =>
-                if forallb selector_ok h then
-                  match h with
-                  | [k] => if is_ty ($"css_keyframe_selector") k || is_ty ($"css_number") k then block (NFrame (tval k)) rest else block (NBlock (map tval h)) rest
-                  | [k; w] => if (is_ty ($"css_keyframe_selector") k || is_ty ($"css_number") k) && is_ty ($"t_ws") w then block (NFrame (tval k)) rest
-                              else block (NBlock (map tval h)) rest
-                  | _ => block (NBlock (map tval h)) rest
-                  end
-                else PNoModel $"selector token")
-          end
+        else if is_ty ($"css_class") t then p_class f (parse_body f) t r
+        else p_rule (parse_body f) ts
     end
   end.
 
